@@ -145,7 +145,9 @@ where
                         priority,
                         key: event.key.clone(),
                     });
-                    inner.streams.insert(event.key, io_stream);
+                    // A stream inserted under this key while the lock was released (the peer
+                    // came back under its identity) wins: the old one must not overwrite it.
+                    inner.streams.entry(event.key).or_insert(io_stream);
                     return Poll::Ready(item);
                 }
                 Poll::Ready(None) => {
@@ -154,7 +156,16 @@ where
                     // this peer; nobody else ever learns that the stream has ended.
                     // Continue to poll other streams instead of returning None immediately.
                     drop(io_stream);
-                    let on_stream_end = fair_queue.inner.lock().on_stream_end.clone();
+                    let on_stream_end = {
+                        let inner = fair_queue.inner.lock();
+                        // ... unless a new stream has been inserted under this key in the
+                        // meantime: the key then belongs to a live connection.
+                        if inner.streams.contains_key(&event.key) {
+                            None
+                        } else {
+                            inner.on_stream_end.clone()
+                        }
+                    };
                     if let Some(on_stream_end) = on_stream_end {
                         on_stream_end(&event.key);
                     }
@@ -162,7 +173,7 @@ where
                 }
                 Poll::Pending => {
                     let mut inner = fair_queue.inner.lock();
-                    inner.streams.insert(event.key, io_stream);
+                    inner.streams.entry(event.key).or_insert(io_stream);
                     continue;
                 }
             }
